@@ -6,7 +6,7 @@ const ghostPreludeMarker = "// ---- ghost prelude ----"
 var ghostBuiltinNames = []string{
 	"seq", "seqOf", "bytesOf", "cat", "cat3", "cat4", "b1", "u16be", "sub", "slen", "sat", "mkseq", "seqEq", "seq0",
 	"sameSlice", "forallKey", "maxAlloc", "ssnap", "sliceSnap", "ssLen", "ssAt", "msnap", "mapSnap", "guardSnap", "guardVal", "guardSlice", "snapHas", "snapGet", "mapHas", "forall", "forallPairs", "forallGrid", "exists", "fresh", "arrayOf", "sameArray", "ite",
-	"evCount", "evIndex", "evArg", "evBytes", "evRet", "evTotal",
+	"evCount", "evIndex", "evArg", "evSlice", "evBytes", "evRet", "evTotal",
 	"holds", "holdsR", "closed", "isNilFunc", "closureIs", "closureVar", "sameFunc", "dynType", "typeIs",
 	"strBytesEq", "runeOK", "validUTF8", "utf8norm", "utf8normOf", "ovfFree", "unchanged", "fnCode", "readyAt",
 	"chainHas", "errChain", "retryOf", "isRetryErr", "ghostTrue", "splitOf", "joinedLen", "hasByte",
@@ -130,6 +130,9 @@ func evTotal() int                          { return 0 }
 func evIndex(name string, k int) int        { return 0 }
 func evBytes(name string, k, arg int) seq   { return seq0() }
 func evArg[T any](name string, k, arg int) T { var z T; return z }
+
+// evSlice: elements of a slice argument as they were when the event happened
+func evSlice[T any](name string, k, arg int) ssnap[T] { return ssnap[T]{} }
 func evRet[T any](name string, k, res int) T { var z T; return z }
 
 func ghostTrue() bool { return true }
